@@ -6,6 +6,7 @@ import (
 	"fmt"
 	"go/constant"
 	"go/types"
+	"regexp"
 	"sort"
 	"strings"
 
@@ -533,14 +534,12 @@ func normSQL(s string) string {
 	return strings.TrimSpace(s)
 }
 
+var sqlShape = regexp.MustCompile(`(?is)^\s*(select\s.*\sfrom\s|insert\s+(or\s+\w+\s+)?into\s|delete\s+from\s|update\s+\S+\s+set\s|replace\s+into\s|with\s+\w+\s+as\s)`)
+
+// looksLikeSQL: a string constant that has the shape of a data statement (log and error messages that merely begin
+// with "insert ..." or "delete ..." are not statements).
 func looksLikeSQL(s string) bool {
-	u := strings.ToUpper(strings.TrimSpace(s))
-	for _, kw := range []string{"SELECT ", "INSERT ", "DELETE ", "UPDATE ", "WITH ", "REPLACE "} {
-		if strings.HasPrefix(u, kw) {
-			return true
-		}
-	}
-	return false
+	return sqlShape.MatchString(s)
 }
 
 // CheckSQLPins: the SQL statements whose semantics a trusted data-access contract assumes must be exactly the
